@@ -8,9 +8,16 @@ from .util import *
 from .. import mir as MIR
 
 
-@model('utils::debug_log', 'utils::debug_performance_log', 'utils::debug_performance_log_structured',
-       'observability::log_error', 'observability::log_message', 'observability::log_performance')
+from . import CRATE_OVERRIDES
+_LOGGING = ('utils::debug_log', 'utils::debug_performance_log', 'utils::debug_performance_log_structured',
+            'observability::log_error', 'observability::log_message', 'observability::log_performance')
+CRATE_OVERRIDES.update(_LOGGING)
+
+
+@model(*_LOGGING)
 def m_log_nop(P, c, args, dt):
+    """logging / timing side channels of the crate: empty bodies (formatting of their arguments has
+    already happened in the caller and is executed)"""
     return unit()
 
 
